@@ -177,3 +177,77 @@ pub fn part_f(ctx: &Ctx) -> (u64, u64) {
     });
     (runs.load(Relaxed), steps.load(Relaxed))
 }
+
+// Part (g): *where* the action runs — "at the next command boundary". While the shell waits for a
+// foreground command (a subshell, a multi-command pipeline, a command substitution, an external
+// utility …) a trapped signal arrives; its action must run when that command has completed, before
+// the next command starts. For each unit, SIGUSR1 is raised at every `select` system call (the shell
+// blocks because its child is still running) the main shell makes between the marker before the unit and the marker after it.
+
+const G_UNITS: [&str; 16] = [
+    "(s 0)",
+    "s 0 | s 0",
+    "s 0 | s 0 | s 0",
+    "! s 0 | s 0",
+    "s 0 && s 0 | s 0",
+    "s 1 || s 0 | s 0",
+    "{ s 0 | s 0; }",
+    "if s 0 | s 0; then s 0; fi",
+    "x=$(s 0)",
+    ": $(s 0) $(s 0)",
+    "f() { s 0 | s 0; }; f",
+    "/bin/true",
+    "s 0 | /bin/true",
+    "set -m; s 0 | s 0",
+    "set -m; (s 0)",
+    "(s 0) | (s 0; s 0)",
+];
+
+/// Returns (executions, injection points).
+pub fn part_g(ctx: &Ctx) -> (u64, u64) {
+    let execs = AtomicU64::new(0);
+    let points = AtomicU64::new(0);
+    G_UNITS.par_iter().for_each(|unit| {
+        // (one line: between lines the read-eval loop looks for pending traps by itself)
+        let script = format!("trap 'p t' USR1\np start; {unit}; p next\np end\n");
+        let setup = Setup::script(&script);
+        // (an injection plan without any delivery: the system calls of the main shell are counted)
+        let base = vsh::run_once(&setup, &RunOpts { log_taps: true, inject: Some(Inject { at: vec![], pid: 2 }), ..Default::default() });
+        execs.fetch_add(1, Relaxed);
+        let main: Vec<&'static str> = base.tap_log.iter().filter(|(p, _)| *p == 2).map(|(_, n)| *n).collect();
+        let at = |m: &str| base.trace.iter().find(|e| e.pid == 2 && e.text.starts_with(m)).map(|e| e.at_tap);
+        let (Some(a), Some(b)) = (at("start:"), at("next:")) else {
+            ctx.violation("c11:trap-position-baseline", &format!("{unit}: the undisturbed run has no start / next marker: {:?}", base.all_trace()), json!({"part": "g", "script": script}));
+            return;
+        };
+        for k in a..b.min(main.len()) {
+            // `select`: the shell has found its child still running and blocks until something
+            // happens (a `wait` call may also be the bookkeeping one after the command boundary)
+            if main[k] != "select" {
+                continue;
+            }
+            points.fetch_add(1, Relaxed);
+            let _g = case_guard(format!("trap position {unit} k={k}"));
+            let r = vsh::run_once(&setup, &RunOpts { inject: Some(Inject { at: vec![(k, 124)], pid: 2 }), ..Default::default() });
+            execs.fetch_add(1, Relaxed);
+            let m: Vec<&str> = r.trace.iter().filter(|e| e.pid == 2).map(|e| e.text.split(':').next().unwrap_or("")).collect();
+            if m != ["start", "t", "next", "end"] {
+                let late = m == ["start", "next", "t", "end"] || m == ["start", "next", "end", "t"];
+                ctx.violation(
+                    if late { "c11:trap-ran-after-the-next-command" } else { "c11:trap-position" },
+                    &format!("`{unit}`: SIGUSR1 arrived while the shell was waiting for the command (its system call {k}, `{}`); the main shell then executed {m:?} — the action belongs between the command and `next`", main[k]),
+                    json!({"part": "g", "script": script, "k": k}),
+                );
+                return;
+            }
+        }
+    });
+    (execs.load(Relaxed), points.load(Relaxed))
+}
+
+pub fn replay_g(case: &serde_json::Value) -> bool {
+    let (Some(script), Some(k)) = (case["script"].as_str(), case["k"].as_u64()) else { return false };
+    let r = vsh::run_once(&Setup::script(script), &RunOpts { inject: Some(Inject { at: vec![(k as usize, 124)], pid: 2 }), ..Default::default() });
+    println!("script:\n{script}\nSIGUSR1 at system call {k} of the main shell\nend={:?}\ntrace={:?}\nstderr={}", r.end, r.trace_by_proc(), r.stderr);
+    true
+}
